@@ -17,6 +17,7 @@ func init() {
 		ID: "C05",
 		Explanation: "Structural necessary conditions of C05: (bound) every function that computes the effective anchorUntil — found by role: the value compared with the anchoring time in the applier's window test and the second argument of TimeValidator.Validate at intake — is executed abstractly over all weak orderings of {from, until, 0} and must return until, except from + MaxOperationTimeDelta exactly when from≠0 ∧ until=0; the protocol field added must be MaxOperationTimeDelta (own parameter), that parameter must have such a sink (live), and no other protocol parameter may reach a window function (E3 sinks of every read of every protocol.Protocol field, module-wide); " +
 			"(nf) the window test is executed over all weak orderings of {from, until, anchor, bound, 0} and must reject exactly when not(from=0 ∧ until=0) ∧ (from > anchor ∨ bound < anchor) — inclusive at both ends; (intake) each Parse*Operation in non-batch mode succeeds only after TimeValidator.Validate(signedData.AnchorFrom, bound(signedData.AnchorFrom, signedData.AnchorUntil)); (effect) window failure maps to the exit class the statement prescribes per type (shared with C03). " +
+			"(intake.only) in the operation parser a value read from signedData.AnchorFrom/AnchorUntil reaches a comparison, arithmetic or non-logging call only under the false edge of the batch flag — in the reading function or at every call site leading to it — because anchored operations are parsed in batch mode and by the applier, where a window decision would skip the operation instead of letting it consume its commitment; " +
 			"Not decided: overflow of from+delta for adversarial 63-bit values; what a caller-supplied TimeValidator does.",
 		Assumptions: []string{"signed-data models are written once after parsing"},
 		Run:         runC05,
